@@ -290,3 +290,12 @@ func drawValidReq(rt *rapid.T, w *WorldDesc, md *MethodDesc, label string) proto
 	}
 	return req
 }
+
+// drawServer picks the server implementation for an op: the TS server takes part when
+// the Node bridge is running (JSON only).
+func drawServer(rt *rapid.T, label string) string {
+	if globalBridge == nil {
+		return "go"
+	}
+	return rapid.SampledFrom([]string{"go", "go", "ts"}).Draw(rt, label)
+}
